@@ -129,6 +129,35 @@ where
     prove_with_partition_witness(prover_data, common_data, partition_witness, timing)
 }
 
+/// Adversarial prover strategies for soundness testing. Compiled only with the `verif_hooks` feature;
+/// the strategy is thread-local and defaults to the honest protocol.
+#[cfg(feature = "verif_hooks")]
+pub mod verif_hooks {
+    use core::cell::Cell;
+
+    #[derive(Copy, Clone, Debug, Default)]
+    pub struct Strategy {
+        /// Commit to all-zero permutation accumulators `Z` and partial products.
+        pub zero_permutation_polys: bool,
+        /// Add one to the constant coefficient of the first quotient chunk of this challenge index.
+        pub perturb_quotient_of_challenge: Option<usize>,
+        /// Truncate a quotient that does not fit instead of aborting.
+        pub lenient_quotient_truncation: bool,
+    }
+
+    std::thread_local! {
+        static STRATEGY: Cell<Strategy> = Cell::new(Strategy::default());
+    }
+
+    pub fn set(strategy: Strategy) {
+        STRATEGY.with(|s| s.set(strategy));
+    }
+
+    pub fn get() -> Strategy {
+        STRATEGY.with(|s| s.get())
+    }
+}
+
 pub fn prove_with_partition_witness<
     F: RichField + Extendable<D>,
     C: GenericConfig<D, F = F>,
@@ -223,6 +252,15 @@ where
         all_wires_permutation_partial_products(&witness, &betas, &gammas, prover_data, common_data)
     );
 
+    #[cfg(feature = "verif_hooks")]
+    if verif_hooks::get().zero_permutation_polys {
+        for polys in partial_products_and_zs.iter_mut() {
+            for poly in polys.iter_mut() {
+                poly.values.iter_mut().for_each(|v| *v = F::ZERO);
+            }
+        }
+    }
+
     // Z is expected at the front of our batch; see `zs_range` and `partial_products_range`.
     let plonk_z_vecs = partial_products_and_zs
         .iter_mut()
@@ -273,12 +311,18 @@ where
         )
     );
 
+    #[cfg(feature = "verif_hooks")]
+    let lenient_quotient_truncation = verif_hooks::get().lenient_quotient_truncation;
     let all_quotient_poly_chunks: Vec<PolynomialCoeffs<F>> = timed!(
         timing,
         "split up quotient polys",
         quotient_polys
             .into_par_iter()
             .flat_map(|mut quotient_poly| {
+                #[cfg(feature = "verif_hooks")]
+                if lenient_quotient_truncation {
+                    quotient_poly.coeffs.truncate(quotient_degree);
+                }
                 quotient_poly.trim_to_len(quotient_degree).expect(
                     "Quotient has failed, the vanishing polynomial is not divisible by Z_H",
                 );
@@ -287,6 +331,18 @@ where
             })
             .collect()
     );
+
+    #[cfg(feature = "verif_hooks")]
+    let all_quotient_poly_chunks = {
+        let mut chunks = all_quotient_poly_chunks;
+        if let Some(challenge) = verif_hooks::get().perturb_quotient_of_challenge {
+            let chunks_per_challenge = chunks.len() / num_challenges;
+            if let Some(chunk) = chunks.get_mut(challenge * chunks_per_challenge) {
+                chunk.coeffs[0] += F::ONE;
+            }
+        }
+        chunks
+    };
 
     let quotient_polys_commitment = timed!(
         timing,
